@@ -62,7 +62,8 @@ def explore_deck(deck, flags=None, pre=(), maxpaths=200, timeout_ms=5000):
     """Symbolic execution of the pipeline on `deck`.  Returns (paths, text, tokens)."""
     stubs.install()
     flags = dict(default_flags(), **(flags or {}))
-    text, tk = dk.unparse(deck)
+    unp = getattr(deck, 'unparser', None)
+    text, tk = unp(deck, dk.Tokens()) if unp else dk.unparse(deck)
     stubs.REG.clear()
     for t, r in tk.table.items():
         stubs.REG[t] = SymReal(r)
@@ -270,7 +271,8 @@ def make_violation(deck, prop, base, path, model, kind, text, flags, sig=None):
         pass
     jd = dk.to_json(deck, _Env(env))
     cdeck = dk.from_json(jd)
-    dtext, _ = dk.unparse(cdeck)
+    unp = getattr(deck, 'unparser', None)
+    dtext, _ = unp(cdeck, dk.Tokens()) if unp else dk.unparse(cdeck)
     case = {'kind': kind if kind != 'deck' else 'deck', 'property': prop, 'deck': dtext, 'deck_model': jd,
             'lattice': list(deck.lattice_opt), 'flags': {k: v for k, v in (flags or {}).items() if not isinstance(v, SymReal)},
             'point': [dec(env.get(nm, Fraction(0))) for nm in POINT_NAMES]}
